@@ -310,8 +310,25 @@ def spec_pixel(case, bpn, ppn, i, j, how="best"):
 
 
 def wscale(case):
+    """the scale every tolerance of this file is RELATIVE to: the total absolute weight of the diagram (every pixel is a sum of
+    w_k * mass_k with 0 <= mass_k <= 1).  No floor at 1: with tiny weights (scale 2^-10, persistence**3 ~ 1e-9) an absolute
+    1e-6 would accept any image.  The 1e-300 floor only keeps an all-zero-weight diagram comparable (its image must be 0)."""
     ws = [abs(x) for x in weights_independent(case, to_bp(case)) if math.isfinite(x)]
-    return max(1.0, sum(ws))
+    return max(1e-300, sum(ws))
+
+
+def sc0(case):
+    return sum(abs(x) for x in weights_independent(case, to_bp(case)) if math.isfinite(x))
+
+
+def within(x, y, tol, sc):
+    """|x - y| <= tol * sc (sc = wscale, not floored at 1); NaN matches NaN, an infinity only itself"""
+    x, y = float(x), float(y)
+    if math.isnan(x) or math.isnan(y):
+        return math.isnan(x) and math.isnan(y)
+    if math.isinf(x) or math.isinf(y):
+        return x == y
+    return abs(x - y) <= tol * sc
 
 
 # ----------------------------------------------------------------------------- generators
@@ -371,20 +388,29 @@ def gen_weight(r, pr, scale, dyadic):
             return {"kind": "linear_ramp", "low": low, "high": high, "start": start, "end": start + width, "as": r.choice(["str", "callable"])}
         start = pr[0] + r.uniform(-0.2, 0.8) * h
         end = start + r.uniform(0.05, 1.0) * h
-        return {"kind": "linear_ramp", "low": r.choice([0.0, r.uniform(0, 2), r.uniform(0, 2)]), "high": r.uniform(0, 2), "start": start, "end": end,
-                "as": r.choice(["str", "callable"])}
-    return {"kind": "user", "a": r.uniform(0, 2), "c": r.uniform(0, 2) / (scale * scale)}
+        mag = r.choice([1.0, 1.0, 1.0, 1.0, 1e-9, 1e-12, 1e6])      # tiny / huge total weights: the tolerances are relative to sum|w|
+        return {"kind": "linear_ramp", "low": r.choice([0.0, r.uniform(0, 2), r.uniform(0, 2)]) * mag, "high": r.uniform(0, 2) * mag,
+                "start": start, "end": end, "as": r.choice(["str", "callable"])}
+    mag = r.choice([1.0, 1.0, 1.0, 1.0, 1e-9, 1e-12, 1e6])
+    return {"kind": "user", "a": r.uniform(0, 2) * mag, "c": r.uniform(0, 2) / (scale * scale) * mag}
 
 
 def gen_points(r, br, pr, ps, rx, ry, dyadic, n):
-    """n points in birth-persistence coordinates: inside / on mesh lines / outside / far / diagonal / duplicates"""
+    """n points in birth-persistence coordinates: inside / on mesh lines / outside / far / diagonal / duplicates /
+    BELOW the diagonal (negative persistence: a (b,d) row with d < b, or a negative second column with skew=False —
+    persistence**n keeps the sign for odd n, is NaN for fractional n; linear_ramp gives `low`)"""
     bp = []
     gx = [br[0] + t * ps for t in range(rx + 1)]
     gy = [pr[0] + t * ps for t in range(ry + 1)]
     for _ in range(n):
-        where = r.choice(["inside", "inside", "border", "outside", "far", "diag", "dup"])
+        where = r.choice(["inside", "inside", "border", "outside", "far", "diag", "dup", "below"])
         if where == "dup" and bp:
             bp.append(list(r.choice(bp)))
+            continue
+        if where == "below":
+            b = br[0] + dy(r, -1, rx + 1, 4) * ps if dyadic else r.uniform(br[0] - ps, br[1] + ps)
+            p = -(dy(r, 0.25, ry + 1, 4) * ps if dyadic else r.choice([r.uniform(0.0, 1.0) * ps, r.uniform(0.0, ry + 1.0) * ps, 0.5 * ps]))
+            bp.append([b, p])
             continue
         if dyadic:
             b = br[0] + dy(r, -1, rx + 1, 4) * ps
@@ -495,7 +521,11 @@ def nontrivial(case, bpn, ppn):
 def img_close(a, b, tol, scale):
     if isinstance(b, str) or isinstance(a, str):
         return a == b
-    return common.close_nested(a, b, tol, scale)
+    try:
+        return len(a) == len(b) and all(len(ra) == len(rb) and all(within(x, y, tol, scale) for x, y in zip(ra, rb))
+                                        for ra, rb in zip(a, b))
+    except TypeError:
+        return False
 
 
 def maxdiff_pixel(a, b):
@@ -529,7 +559,7 @@ def property_fails(case, code_img, bpn, ppn, res, focus=None, budget=40):
         cells = cells[:budget]
     for (i, j) in cells:
         s = spec_pixel(case, bpn, ppn, i, j)
-        if not (abs(float(a[i, j]) - s) <= TOL_MASS * sc) and not (math.isnan(s) and math.isnan(float(a[i, j]))):
+        if not within(a[i, j], s, TOL_MASS, sc):
             return "pixel [birth %d][persistence %d] = %r but sum_k w_k*mass_k = %r" % (i, j, float(a[i, j]), s)
     return None
 
@@ -586,12 +616,19 @@ def run(ctx):
     # compare
     pi = 0
     pix_budget = ctx.n(500, 5000)
+    deferred, slow_search_budget = [], 60
     for ci, (case, (st, v, path, bpn, ppn, res)) in enumerate(zip(cases, reals)):
         code = ("err:" + v) if st == "err" else common.tolist(v)
         nt = st == "ok" and nontrivial(case, bpn, ppn)
         ctx.case({"op": "transform", **case}, nt, sample_every=53)
         ctx.count("kernel:" + case["kind"]); ctx.count("weight:" + case["weight"]["kind"]); ctx.count("points:%d" % len(case["dgm"]))
         ctx.count("skew:%s" % case["skew"]); ctx.count("res:%dx%d" % res if max(res) <= 3 else "res:larger")
+        _bp = to_bp(case)
+        if any(q[1] < 0 for q in _bp):
+            ctx.count("has_point_below_diagonal")
+            if any(math.isnan(x) for x in weights_independent(case, _bp)):
+                ctx.count("below_diagonal_fractional_exponent_NaN_image")
+        ctx.count("total_weight:%s" % ("0" if sc0(case) == 0 else "<1e-6" if sc0(case) < 1e-6 else "<1" if sc0(case) < 1 else ">=1"))
         if st == "err":
             ctx.count("code_error:" + v)
         sc = wscale(case)
@@ -633,7 +670,7 @@ def run(ctx):
                 for _ in range(2):
                     i, j = r.randrange(res[0]), r.randrange(res[1])
                     s = spec_pixel(case, bpn, ppn, i, j)
-                    ok = abs(float(a[i, j]) - s) <= TOL_MASS * sc
+                    ok = within(a[i, j], s, TOL_MASS, sc)
                     ctx.test("mass_quad1d_correlated", ok)
                     pix_budget -= 1
                     if not ok:
@@ -641,15 +678,29 @@ def run(ctx):
             if fail is not None:
                 ctx.violation("pixel is not the weighted kernel mass: " + fail, {"op": "transform", **case}, found_input=True, law="mass")
                 bad = []
+        # a broken correspondence is not by itself a violation: look for a pixel where the PROPERTY fails on this input; if
+        # there is none, keep the disagreement and go on searching on the remaining cases (reported at the end, at most 2)
         for (op, what, li) in bad:
             focus = maxdiff_pixel(code, answers[li]) if op != "dispatch" and not isinstance(code, str) else None
-            fail = property_fails(case, code, bpn, ppn, res, focus=focus)
-            ctx.violation("%s; %s" % (what, fail or "the independent mass oracle agrees with the code on this input"),
-                          {"op": "transform", **case} if fail else {"correspondence": "img." + op, "line": lines[li][:1500], "code": code, "model": answers[li], **case},
-                          found_input=fail is not None, correspondence="img." + op)
+            slow = mass_closed(case["kernel"], [0.0, 0.0], 0.0, 1.0, 0.0, 1.0) is None
+            if slow and slow_search_budget <= 0 and not isinstance(code, str):
+                fail = None
+            else:
+                slow_search_budget -= 1 if slow else 0
+                fail = property_fails(case, code, bpn, ppn, res, focus=focus)
+            if fail is not None:
+                ctx.violation("%s; %s" % (what, fail), {"op": "transform", **case}, found_input=True, correspondence="img." + op)
+            else:
+                ctx.count("correspondence_disagreements_without_failing_pixel")
+                if len(deferred) < 2:
+                    deferred.append((what, {"correspondence": "img." + op, "line": lines[li][:1500], "code": code, "model": answers[li], **case}, op))
             break
         if len(ctx.violations) > 5:
             return
+    density_stream(ctx)
+    for what, rec, op in deferred:
+        ctx.violation("%s; the independent mass oracle agrees with the code on this input" % what, rec, found_input=False,
+                      correspondence="img." + op)
     density_stream(ctx)
 
 
@@ -696,8 +747,8 @@ def density_stream(ctx):
         sc = wscale(case)
         s2 = spec_pixel(case, bpn, ppn, i, j, how="dblquad")
         s1 = spec_pixel(case, bpn, ppn, i, j)
-        ok2 = abs(float(a[i, j]) - s2) <= TOL_MASS * sc
-        ok1 = abs(float(a[i, j]) - s1) <= TOL_MASS * sc
+        ok2 = within(a[i, j], s2, TOL_MASS, sc)
+        ok1 = within(a[i, j], s1, TOL_MASS, sc)
         done += 1
         ctx.count("density_pixels:" + kind)
         if not ok2 and ok1:
@@ -742,7 +793,7 @@ def replay(ctx, rep):
     st, v, path, bpn, ppn, res = run_real(c)
     print("code:", st, (np.asarray(v).tolist() if st == "ok" else v), "path:", path)
     fail = property_fails(c, ("err:" + v) if st != "ok" else v, bpn, ppn, res, budget=200)
-    print("independent oracle:", fail or "every checked pixel equals sum_k w_k * mass_k within 1e-6")
+    print("independent oracle:", fail or "every checked pixel equals sum_k w_k * mass_k within 1e-6 * sum_k |w_k|")
     return fail is None
 
 
